@@ -255,6 +255,19 @@ func (m c10) checkCutting(c *core.Ctx, stmts []string, infos []*stmtInfo, mask u
 		}
 		if sr.CompileErr != fr2.CompileErr {
 			// the session's fragment failed statically but the concatenation did not (or vice versa)
+			refusal := sr
+			if fr2.CompileErr {
+				refusal = fr2
+			}
+			if optKind != "noopt" && strings.Contains(refusal.Err, "Optimizer Error") {
+				// Not a C10 difference: the optimizer may refuse a script by reporting the runtime error of one of its
+				// constant sub-expressions (C01), and whether it gets that far depends on the per-compilation optimizer
+				// budget, which a fragment and the whole script spend differently (and on constants declared by earlier
+				// fragments, whose values only the whole script's optimizer sees). The cutting is judged without the
+				// optimizer instead, where no refusal exists.
+				c.Count("optimizer_refusal_on_one_side_rechecked_noopt")
+				return m.checkCutting(c, stmts, infos, mask, modules, builtin, "noopt")
+			}
 			c.Violation("C10|diff|compile-vs-run|"+optKind+"|"+fmt.Sprintf("%x", hashStr(strings.Join(frags, "\x00"))), "fragment "+fmt.Sprint(i)+" is rejected at compile time on one side only", wit("compile error on one side only"))
 			return
 		}
